@@ -10,10 +10,13 @@
                                        -> [[Words; Offset] after NewBuilder and after every call]
     widening (neighbouring code of package bitmap):
     [bitmap.Mask]       [i]            any int i                -> [Mask[i]; RMask[i]]           (P outside 0..64)
-    [bitmap.Bit]        [i]            any int i                -> [MaskUpto[i]; RMaskUpto[i]; Bit[i]; RBit[i]]  (P outside 0..63) *)
+    [bitmap.Bit]        [i]            any int i                -> [MaskUpto[i]; RMaskUpto[i]; Bit[i]; RBit[i]]  (P outside 0..63)
+    [bitmap.Fmt]        [sz; signed; slice; xs]  Fmt of one integer (slice = 0, xs = [x]) or of a slice of integers of
+                                       sz bytes (1,2,4,8; signed only tells the harness which Go type to build);
+                                       any other sz = a non-integer type (string / []string)  -> the string (P = panic) *)
 From Coq Require Import ZArith List Bool String.
 From Low Require Import Lib.Bits Lib.BitSeq Lib.Val Model.BuilderOps Model.BitmapOf Spec.OfSpec
-  Model.BitmapMask Spec.MaskSpec.
+  Model.BitmapMask Spec.MaskSpec Model.BitmapFmt Spec.FmtSpec.
 Import ListNotations.
 Open Scope string_scope.
 Open Scope Z_scope.
@@ -174,6 +177,17 @@ Definition ops_C12_wide : list opdef := [
        | _ => VBad end;
      op_spec := fun_spec (fun a => match a with
        | [i] => match as_z i with Some i => vbit (spec_bit_at i) | None => VBad end
+       | _ => VBad end) |};
+  {| op_name := "bitmap.Fmt";
+     op_run := fun a => match a with
+       | [sz; sg; sl; xs] => match as_z sz, as_z sg, as_bool sl, as_zs xs with
+           | Some sz, Some _, Some sl, Some xs => vwords (Fmt sz sl xs)
+           | _, _, _, _ => VBad end
+       | _ => VBad end;
+     op_spec := fun_spec (fun a => match a with
+       | [sz; sg; sl; xs] => match as_z sz, as_bool sl, as_zs xs with
+           | Some sz, Some sl, Some xs => vwords (spec_Fmt sz sl xs)
+           | _, _, _ => VBad end
        | _ => VBad end) |}
 ].
 
